@@ -79,12 +79,30 @@ theorem sub_cancels (mw : List α) (a b c d : RVal α)
 
 theorem sub_cancels_acts (mw : List α) (a b c d : RVal α) (n : List α)
     (hbasis : b.basis = a.basis) (hph : a.ph = b.ph) (hr : a.ridx = b.ridx)
-    (hl : a.v.length = b.v.length)
+    (hl : a.v.length = b.v.length) (hn : a.v.length = n.length)
     (ha : a.v.getD a.ridx 0 = -1) (hb : b.v.getD b.ridx 0 = -1)
-    (hxa : a.x ≠ 0) (hx : a.x + b.x ≠ 0)
+    (hx : a.x + b.x ≠ 0)
     (hc : a.addSub mw false (some b) = .ok c) (hd : c.addSub mw true (some b) = .ok d) :
     react d.v d.ridx d.x n = react a.v a.ridx a.x n := by
-  rw [sub_cancels mw a b c d hbasis hph hr hl ha hb hxa hx hc hd]
+  by_cases hxa : a.x = 0
+  · -- `a` converts nothing; `(a+b)-b` is then the empty reaction with conversion 0: both sides leave the feed alone
+    cases hre : b.hasReaction
+    · rw [addSub_noReaction mw false a b hre] at hc
+      have := Except.ok.inj hc; subst this
+      rw [addSub_noReaction mw true a b hre] at hd
+      have := Except.ok.inj hd; subst this; rfl
+    · rw [addSub_ok mw false a b hre hbasis hph hr ha hb (by simpa [sgn] using hx)] at hc
+      have hce := (Except.ok.inj hc).symm
+      obtain ⟨b', hb', _, _, v, hv, hdd⟩ := addSub_some_inv mw true c b d hre hd
+      have hcb : b.basis = c.basis := by rw [hce]; exact hbasis
+      rw [copyB_same mw c b hcb] at hb'
+      have := Except.ok.inj hb'; subst this
+      have hvl := combineV_length _ _ _ _ _ _ _ hv
+      have hcl : c.v.length = a.v.length := by rw [hce]; simp [comb, hl]
+      have hdx : d.x = 0 := by rw [hdd, hce]; simp [sgn, hxa]
+      have hdl : n.length ≤ d.v.length := by rw [hdd]; simp only []; rw [hvl, hcl, ← hl, ← hn]; simp
+      rw [hdx, hxa, react_zero_x _ _ _ hdl, react_zero_x _ _ _ (by rw [hn])]
+  · rw [sub_cancels mw a b c d hbasis hph hr hl ha hb hxa hx hc hd]
 
 /-- **smul_scales_X.**  `k * a` is `a` with its conversion multiplied by `k`; on every feed the change it
 produces is `k` times the change `a` produces. -/
@@ -98,17 +116,6 @@ theorem smul_scales_X (a : RVal α) (k : α) (n : List α) (hl : a.v.length = n.
   · intro i h1 h2
     simp only [react, RVal.smul, List.getElem_zipWith]
     ring
-
-/-- `a / k` is `a` with its conversion divided by `k` (`k ≠ 0`); `a / 0` raises `ZeroDivisionError`. -/
-theorem sdiv_scales_X (a : RVal α) (k : α) (hk : k ≠ 0) : a.sdiv k = .ok { a with x := a.x / k } := by
-  simp [RVal.sdiv, RVal.smul, hk, div_eq_mul_inv]
-
-theorem sdiv_zero (a : RVal α) : a.sdiv 0 = .error .zeroDiv := by
-  simp [RVal.sdiv]
-
-/-- `-a` is `a` with the conversion negated -/
-theorem neg_scales_X (a : RVal α) : a.neg = { a with x := -a.x } := by
-  simp [RVal.neg]
 
 /-- **Re-basing does not change what a reaction does to a stream.**  `copy('wt')` / `copy('mol')` of a
 normalised reaction (molecular weights nonzero) acts on molar flows exactly like the original; this is what
@@ -178,30 +185,6 @@ theorem rebase_agrees_on_streams (mw : List α) (a c : RVal α) (b : BArg) (n : 
         have hmi : (mwFlat mw a.ph)[i] ≠ 0 := hmw _ (List.getElem_mem him)
         simp only [react, List.getElem_zipWith, List.getElem_map, hq, hnm, hnr, har]
         field_simp
-
-/-- applying two same-basis reactions in parallel to a stream is adding their separate effects on that stream -/
-theorem applyStream_parallel_two (mwf : List α) (β : Basis) (a b : RVal α) (n : List α)
-    (hmw : ∀ m ∈ mwf, m ≠ 0) (hlm : mwf.length = n.length)
-    (hla : a.v.length = n.length) (hlb : b.v.length = n.length) :
-    applyStream mwf β (parallel [(a.v, a.ridx, a.x), (b.v, b.ridx, b.x)]) n =
-      List.zipWith (· + ·) (applyStream mwf β (react a.v a.ridx a.x) n)
-        (List.zipWith (· - ·) (applyStream mwf β (react b.v b.ridx b.x) n) n) := by
-  cases β
-  · simp only [applyStream]
-    apply List.ext_getElem
-    · simp [react, parallel, hla, hlb]
-    · intro i h1 h2
-      simp only [react, parallel, List.foldl_cons, List.foldl_nil, List.getElem_zipWith]
-      ring
-  · simp only [applyStream]
-    apply List.ext_getElem
-    · simp [react, parallel, hla, hlb, hlm]
-    · intro i h1 h2
-      have him : i < mwf.length := by simp [react, parallel, hla, hlb, hlm] at h1; omega
-      have hmi : mwf[i] ≠ 0 := hmw _ (List.getElem_mem him)
-      simp only [react, parallel, List.foldl_cons, List.foldl_nil, List.getElem_zipWith]
-      field_simp
-      ring
 
 /-- **add_is_parallel_on_streams** (operands on any bases; this is also the case of a `Reaction` combined with a
 `ReactionItem` of a set kept on the other basis).  `b` is first re-based to `a`'s basis; the sum, applied to the
@@ -376,14 +359,15 @@ theorem reachable_wf_alts (nchem : Nat) (mw : List α) (alts : List (Pkg α)) (o
     (Store.run ({ nchem := nchem, mw := mw, alts := alts } : Store α) ops).WF :=
   run_wf ops _ (by intro o ho; simp at ho)
 
-/-- **fresh_result.**  The result of an arithmetic operation, `copy`, `backwards`, `reduce` or `set.copy` is a new
+/-- **fresh_result.**  The result of an arithmetic operation, `copy`, `backwards`, `reduce`, `set.copy` or of building a
+set from reactions is a new
 object (its id is the next free one), and every stoichiometry array and X array it holds was allocated
 by this operation. -/
 theorem fresh_result (s s' : Store α) (op : Op α) (k : Nat) (hop : makesFresh s op)
     (h : s.step op = .ok (s', k)) :
     k = s.objs.length ∧ ∃ o, s'.objs = s.objs ++ [o] ∧
       (∀ id ∈ o.arrIds, s.arrs.length ≤ id) ∧ (∀ id ∈ o.xIds, s.xarrs.length ≤ id) := by
-  rcases hop with hp | ⟨sid, order, rfl⟩ | ⟨sid, b, rfl⟩
+  rcases hop with hp | ⟨sid, order, rfl⟩ | ⟨sid, b, rfl⟩ | ⟨ser, ms, rfl⟩
   · obtain ⟨r, hr⟩ := Option.isSome_iff_exists.mp hp
     obtain ⟨a, _, hs, hk⟩ := step_pure_ok s s' op k r hr h
     refine ⟨hk, _, by rw [hs]; rfl, ?_, ?_⟩ <;> simp [Obj.arrIds, Obj.xIds]
@@ -397,6 +381,16 @@ theorem fresh_result (s s' : Store α) (op : Op α) (k : Nat) (hop : makesFresh 
     · intro id hid; simp [Obj.arrIds] at hid; obtain ⟨j, _, rfl⟩ := hid; omega
     · intro id hid; simp [Obj.xIds] at hid; omega
   · simp only [Store.step, Store.pureOp, Store.setCopyOp] at h
+    split at h; · simp at h
+    split at h; · simp at h
+    split at h; · simp at h
+    simp only [Except.ok.injEq, Prod.mk.injEq] at h
+    refine ⟨h.2.symm, _, by rw [← h.1], ?_, ?_⟩
+    · intro id hid; simp [Obj.arrIds] at hid; obtain ⟨j, _, rfl⟩ := hid; omega
+    · intro id hid; simp [Obj.xIds] at hid; omega
+
+  · simp only [Store.step, Store.pureOp, Store.mkSetOp] at h
+    split at h; · simp at h
     split at h; · simp at h
     split at h; · simp at h
     split at h; · simp at h
@@ -532,6 +526,36 @@ theorem set_write_seen_by_sets (s : Store α) (hwf : s.WF) (sid i : Nat) (t : RS
   rw [getD_of_lt _ _ hlen]
   simp only [Store.setVals, List.getElem_map, List.getElem_range, hxa, hoff]
   exact hcell
+
+/-- **item_set_shared** (whole-array assignment).  `set.X = xs` writes the cells of the set's own X window in
+place — the set keeps its array (`set?` is unchanged) — so every item created before, by `set[i]` or by iterating
+the set, reads the new value of its cell. -/
+theorem set_assign_seen_by_items (s : Store α) (hwf : s.WF) (sid : Nat) (t : RSet) (xs : List α)
+    (ht : s.set? sid = .ok t) (hlen : xs.length = t.rows.length) :
+    ∃ s2, s.step (.setSetXAll sid xs) = .ok (s2, sid) ∧ s2.set? sid = .ok t ∧ s2.arrs = s.arrs ∧
+      (∀ i, i < t.rows.length → cell s2 t.xa (t.xoff + i) = xs.getD i 0) ∧
+      ∀ k r i, s.rxn? k = .ok r → r.x = .shared t.xa (t.xoff + i) → i < t.rows.length →
+        (s2.valOf k).map (·.x) = .ok (xs.getD i 0) := by
+  obtain ⟨_, h2, h3, _⟩ := set_wf_of_ok hwf ht
+  have hcell : ∀ i, i < t.rows.length →
+      cell { s with xarrs := s.xarrs.set t.xa (writeWindow (s.xarrs.getD t.xa []) t.xoff xs) } t.xa (t.xoff + i)
+        = xs.getD i 0 := by
+    intro i hi
+    have hlt : t.xoff + i < (s.xarrs.getD t.xa []).length := by omega
+    simp only [cell]
+    have : (s.xarrs.set t.xa (writeWindow (s.xarrs.getD t.xa []) t.xoff xs)).getD t.xa []
+        = writeWindow (s.xarrs.getD t.xa []) t.xoff xs := by simp [List.getD, h2]
+    rw [this, writeWindow_getD _ _ _ _ hlt]
+    simp [hlen, hi]
+  refine ⟨{ s with xarrs := s.xarrs.set t.xa (writeWindow (s.xarrs.getD t.xa []) t.xoff xs) },
+    by simp [Store.step, Store.pureOp, Store.setSetXAllOp, ht, hlen], by simpa [Store.set?] using ht, rfl,
+    hcell, ?_⟩
+  intro k r i hr hx hi
+  have : Store.rxn? { s with xarrs := s.xarrs.set t.xa (writeWindow (s.xarrs.getD t.xa []) t.xoff xs) } k = .ok r := by
+    simpa [Store.rxn?] using hr
+  rw [valOf_of_rxn? this]
+  simp only [Except.map, Store.val, Store.getX, hx]
+  exact congrArg _ (hcell i hi)
 
 /-! ## What the in-place forms leave alone -/
 
@@ -685,7 +709,8 @@ theorem results_normalised (s : Store α) (op : Op α) (a : RVal α)
     exact backwards_normal _ _ a r x h
 
 /-- The `basis` setter is the one operation that modifies an existing stoichiometry array: exactly the array
-of its own object (so a set built from that reaction sees the new numbers), nothing else. -/
+of its own object, nothing else (a set built from that reaction holds copies of the member arrays — repair
+8900795 — and so keeps its numbers). -/
 theorem setBasis_frame (s s' : Store α) (a k : Nat) (b : BArg) (h : s.step (.setBasis a b) = .ok (s', k)) :
     k = a ∧ s'.xarrs = s.xarrs ∧ (∀ id, id ≠ a → s'.objs[id]? = s.objs[id]?) ∧
     ∃ r, s.rxn? a = .ok r ∧ s'.arrs.length = s.arrs.length ∧ ∀ aid, aid ≠ r.nu → s'.arrs[aid]? = s.arrs[aid]? := by
@@ -703,15 +728,6 @@ theorem setBasis_frame (s s' : Store α) (a k : Nat) (b : BArg) (h : s.step (.se
 
 /-! ## The agreement clauses at the level of store operations -/
 
-theorem applyArr_of_valOf (s : Store α) (k : Nat) (c : RVal α) (n : List α) (h : s.valOf k = .ok c) :
-    s.applyArr k n = .ok (react c.v c.ridx c.x n) := by
-  cases hr : s.rxn? k with
-  | error e => rw [valOf_error hr] at h; exact absurd h (by simp)
-  | ok r =>
-    rw [valOf_of_rxn? hr] at h
-    have := Except.ok.inj h; subst this
-    simp [Store.applyArr, rxn?_ok hr]
-
 /-- `c = a + b` executed on objects of the store: calling `c` on a feed gives what `a` and `b` give in
 parallel (equal basis label, phases and reactant; both normalised; `X_a + X_b ≠ 0`). -/
 theorem add_step_is_parallel (s s' : Store α) (a b k : Nat) (ra rb : Rxn α) (n : List α)
@@ -728,15 +744,6 @@ theorem add_step_is_parallel (s s' : Store α) (a b k : Nat) (ra rb : Rxn α) (n
   rw [applyArr_of_valOf s' k c n hv]
   congr 1
   exact add_is_parallel _ (s.val ra) (s.val rb) c n hbasis hph hr hla hlb ha hb hx hc
-
-theorem applyStr_of_valOf (s : Store α) (k : Nat) (c : RVal α) (n : List α) (h : s.valOf k = .ok c) :
-    s.applyStr k n = .ok (applyStream (mwFlat (s.mwOf (s.pkgOf k)) c.ph) c.basis (react c.v c.ridx c.x) n) := by
-  cases hr : s.rxn? k with
-  | error e => rw [valOf_error hr] at h; exact absurd h (by simp)
-  | ok r =>
-    rw [valOf_of_rxn? hr] at h
-    have := Except.ok.inj h; subst this
-    simp [Store.applyStr, rxn?_ok hr, pkgOf_rxn hr]
 
 /-- `c = a + b` on objects of the store whose bases may differ — in particular a `Reaction` `a` and a
 `ReactionItem` `b` of a set kept on the other basis (`b`'s conversion is then the set's X cell): calling `c` on a
@@ -831,20 +838,6 @@ theorem reduce_step_acts (s s' : Store α) (hwf : s.WF) (sid k : Nat) (order : L
 
 /-! ## Copies and slices of reaction sets, series sets -/
 
-/-- reading back a set whose rows and X array were just allocated from a list of values -/
-theorem fresh_set_triples (s : Store α) (vs : List (RVal α)) (t' : RSet) (s' : Store α)
-    (hrows : t'.rows = (List.range vs.length).map (· + s.arrs.length)) (hxa : t'.xa = s.xarrs.length)
-    (hoff : t'.xoff = 0) (hri : t'.ridxs = vs.map (·.ridx))
-    (harr : s'.arrs = s.arrs ++ vs.map (·.v)) (hx : s'.xarrs = s.xarrs ++ [vs.map (·.x)]) :
-    (s'.setVals t').map (fun a => (a.v, a.ridx, a.x)) = vs.map (fun a => (a.v, a.ridx, a.x)) := by
-  simp only [Store.setVals, List.map_map, hrows, hxa, hoff, hri, harr, hx, List.length_map, List.length_range,
-    Nat.zero_add]
-  apply List.ext_getElem
-  · simp
-  · intro j h1 h2
-    have hj : j < vs.length := by simpa using h2
-    simp [Store.arr, List.getD, hj, harr, List.getElem?_append_right]
-
 /-- **setCopy_acts_like_original** (`_partial`: the copy keeps the basis).  `set.copy()` — or `copy(basis)` with the
 set's own basis — returns a set that does to every array and every stream what the original does (parallel or
 series alike).  (That it is a new object with its own row arrays and X array is `fresh_result`; that the original
@@ -924,14 +917,6 @@ theorem slice_refers_to_parent (s s' : Store α) (sid i j k : Nat) (t : RSet) (h
       t.series, t.pkg⟩, ?_, rfl, rfl, rfl, fun m => ?_⟩
     · rw [← hs, ← hk]; simp [Store.set?]
     · simp only [Nat.min_eq_left hi]; omega
-
-/-- calling a `SeriesReaction` is the left fold of its members over the running material; calling a
-`ParallelReaction` takes every extent from the feed -/
-theorem set_apply_def (s : Store α) (sid : Nat) (t : RSet) (n : List α) (ht : s.set? sid = .ok t) :
-    s.applyArr sid n = .ok (if t.series
-      then ((s.setVals t).map fun a => (a.v, a.ridx, a.x)).foldl (fun acc q => react q.1 q.2.1 q.2.2 acc) n
-      else parallel ((s.setVals t).map fun a => (a.v, a.ridx, a.x)) n) := by
-  simp [Store.applyArr, set?_ok ht, setAct, series]
 
 /-! ## `reset_chemicals`: re-indexing a reaction onto another property package -/
 
@@ -1189,6 +1174,11 @@ example :
             (match exStore2.applyStrPkg 0 1 [8, 1, 4, 0], s'.applyStrPkg 0 1 [8, 1, 4, 0] with
              | .ok m, .ok m' => decide (m = m') && decide (m = [4, 5, 0, 0])
              | _, _ => false)
+          | .error _ => false)
+      -- `set.X = [1/16, 1/32]` on the series set: its slice and the slice's item (cell 1) read 1/32
+      && (match exStore2.step (.setSetXAll 2 [1/16, 1/32]) with
+          | .ok (s', k) => k == 2 && decide (cell s' 0 0 = 1/16) && decide (cell s' 0 1 = 1/32)
+              && (match s'.valOf 4 with | .ok v => decide (v.x = 1/32) | .error _ => false)
           | .error _ => false)
       -- reaction 1 produces chemical 3, which package 1 lacks
       && (match exStore2.step (.reset 1 1) with | .error .undefinedChemical => true | _ => false)) = true := by
